@@ -78,7 +78,7 @@ def expected_view(p, whole):
         coll = getp(whole, g['node'], {})
         sub = p['schema'][gview[0]]['*']
         subtopo = {}
-        t = p['topology'][gview[0]]
+        t = p['topology'].get(gview[0], [gview[0]])   # omitted: default
         if isinstance(t, dict):
             subtopo = t.get('*', {})
         out = {}
